@@ -7,7 +7,7 @@ import random
 import shutil
 import subprocess
 
-from vlib import Infra, read_ndjson, save_replay, tlc_mc, tlc_trace, write_ndjson, write_evidence, open_findings, log
+from vlib import Infra, read_ndjson, save_replay, tlc_mc, tlc_sim, tlc_trace, write_ndjson, write_evidence, open_findings, log
 from props import store
 
 KEYS = ['k1', 'k2', 'k3']
@@ -91,6 +91,19 @@ def die_points(hits, rng, cap):
     return pts
 
 
+def record_offsets(path):
+    """start offsets of the physical records of a log file (header: crc 4, length 2 little-endian, type 1)"""
+    data = open(path, 'rb').read()
+    offs, off = [], 0
+    while off + 7 <= len(data):
+        n = data[off + 4] | (data[off + 5] << 8)
+        if off + 7 + n > len(data):
+            break
+        offs.append(off)
+        off += 7 + n
+    return offs
+
+
 def run_point(ctx, prog, cls, point, tag, second=None, torn=0):
     """One crash run -> list of trace events (starting with reset) and a description."""
     d = ctx.sub(f'crash-{tag}')
@@ -113,7 +126,16 @@ def run_point(ctx, prog, cls, point, tag, second=None, torn=0):
             # the stop hit the process inside the write(2) that had just been issued: its last bytes are missing
             wd = os.path.join(d, 'db', 'wal')
             files = sorted(f for f in os.listdir(wd) if f.endswith('.wal') and os.path.getsize(os.path.join(wd, f)) > 0)
-            if files and os.path.getsize(os.path.join(wd, files[-1])) > torn:
+            if files and torn < 0:
+                # the write(2) ended exactly on a record boundary: the last -torn physical records are missing (a fragmented
+                # entry or a batch is then cut between two of its records)
+                fp = os.path.join(wd, files[-1])
+                offs = record_offsets(fp)
+                if len(offs) > -torn:
+                    os.truncate(fp, offs[torn])
+                    info['torn_applied'] = True
+                    ev[-1]['torn'] = True
+            elif files and os.path.getsize(os.path.join(wd, files[-1])) > torn:
                 fp = os.path.join(wd, files[-1])
                 os.truncate(fp, os.path.getsize(fp) - torn)
                 info['torn_applied'] = True
@@ -202,13 +224,14 @@ def explain(run):
     ev, info = run
     last_obs = [e for e in ev if e['e'] == 'obs']
     errs = [e for e in ev if e['e'] in ('openerror', 'childerror', 'error')]
-    s = f"{info['class']} die at {info.get('die')}" + (f" with the last {info['torn']} bytes of the newest log file missing" if info.get('torn') else '')
+    s = f"{info['class']} die at {info.get('die')}" + (f" with the last {info['torn']} bytes of the newest log file missing" if info.get('torn', 0) > 0 else
+                                                      f" with the last {-info['torn']} physical records of the newest log file missing" if info.get('torn', 0) < 0 else '')
     if errs:
         return s + ': ' + errs[0]['e'] + ' ' + errs[0].get('msg', '')[:200]
     return s + ': no surviving prefix of the issued writes explains the recovered state ' + json.dumps([(o['st'], o['seq']) for o in last_obs])
 
 
-def enumerate_crashes(ctx, prop, progs, classes, cap, second_crash=False):
+def enumerate_crashes(ctx, prop, progs, classes, cap, second_crash=False, cfg='TRACE_Durable.cfg'):
     rng = random.Random(ctx.seed)
     jobs = []
     for pi, prog in enumerate(progs):
@@ -231,6 +254,11 @@ def enumerate_crashes(ctx, prop, progs, classes, cap, second_crash=False):
             if pt[0] == 'wal.sync.flushed' or (pt[0] == 'wal.close.flushed' and cls[2].get('sync_mode', 2) != 2):
                 for t in (1, 7, 20):
                     jobs.append((pi, prog, cls, pt, None, t))
+            # with an unsynced log everything Close still has to write out is unacknowledged-as-durable: the write may end
+            # on any record boundary as well
+            if pt[0] == 'wal.close.flushed' and cls[2].get('sync_mode', 2) == 0:
+                for t in (-1, -2, -3):
+                    jobs.append((pi, prog, cls, pt, None, t))
         jobs.append((pi, prog, cls, None, None, 0))
     runs = [None] * len(jobs)
 
@@ -244,7 +272,7 @@ def enumerate_crashes(ctx, prop, progs, classes, cap, second_crash=False):
     for (ev, info), job in zip(runs, jobs):
         if info.get('die') and not info.get('die_not_reached'):
             ctx.nontrivial.add((job[0], tuple(info['die']), info.get('torn', 0)))
-    rejected = validate(ctx, runs, prop.lower())
+    rejected = validate(ctx, runs, prop.lower(), cfg=cfg)
     ctx.traces += len(runs)
     for i in rejected[:6]:
         pi, prog, cls, pt, sec, torn = jobs[i]
@@ -252,7 +280,7 @@ def enumerate_crashes(ctx, prop, progs, classes, cap, second_crash=False):
         again = 0
         for r in range(2):
             rr = run_point(ctx, prog, cls, pt, f'repro{i}-{r}', sec, torn)
-            if validate(ctx, [rr], f'repro{i}-{r}'):
+            if validate(ctx, [rr], f'repro{i}-{r}', cfg=cfg):
                 again += 1
         what = explain(runs[i])
         if again == 0:
@@ -309,6 +337,9 @@ def replay_witnesses(ctx, prop):
 
 
 def replay_saved(ctx, payload):
+    if 'retention' in payload:
+        r = retention_replay(ctx, [payload['retention']], payload['tiny'], 'replay')[0]
+        return None if r['ok'] else {'what': r.get('what'), 'step': r.get('step')}
     if 'site' in payload:           # gated rotation scenario
         ctx.violations = []
         gated_rotation(ctx, ctx.prop)
@@ -357,6 +388,67 @@ def gated_rotation(ctx, prop):
         ctx.violations.append({'what': 'stop during log rotation: ' + explain(runs[i]), 'replay': path})
 
 
+# ------------------------------------------------------------------------------------- log retention on a primary
+def retention_replay(ctx, behs, tiny, tag):
+    d = ctx.sub('ret-' + tag)
+    inp, out = os.path.join(d, 'beh.ndjson'), os.path.join(d, 'res.ndjson')
+    write_ndjson(inp, behs)
+    ctx.run_kvh(['retention-replay', '-in', inp, '-work', os.path.join(d, 'w'), '-out', out] + (['-tiny'] if tiny else []), timeout=900)
+    res = read_ndjson(out)
+    if len(res) != len(behs):
+        raise Infra(f'retention-replay {tag}: {len(res)} results for {len(behs)} behaviours')
+    return res
+
+
+def retention(ctx, prop):
+    """KevoRetention: the primary's log retention (driven by what a replication client acknowledges) against durability.
+    Model-checked with and without the guard; TLC-generated walks (put, flush, acknowledge, die - also inside an append -,
+    recover) are performed on a real primary, one child process per life, with the log files, the readable entries, the
+    next sequence number and unflushedFrom compared with the specification after every step."""
+    for cfg in ('MC_Retention.cfg', 'MC_Retention_tiny.cfg'):
+        tlc_mc(ctx, 'KevoRetention', cfg, timeout=600)
+    bad, _, out = tlc_mc(ctx, 'KevoRetention', 'MC_Retention_neg.cfg', timeout=600, expect_violation=True)
+    if not (bad and 'Recoverable is violated' in out):
+        raise Infra('negative configuration: retention without the guard must violate Recoverable in the specification')
+    bad, _, out = tlc_mc(ctx, 'KevoRetention', 'MC_Retention_live.cfg', timeout=600, expect_violation=True)
+    if not (bad and 'NothingEverDeleted is violated' in out):
+        raise Infra('vacuity: no behaviour of KevoRetention ever deletes a log file')
+    n = 40 if ctx.quick() else 400
+    deletions = 0
+    for tiny, cfg, depth in ((False, 'GEN_Retention.cfg', 14), (True, 'GEN_Retention_tiny.cfg', 12)):
+        behs = tlc_sim(ctx, 'GEN_Retention', cfg, n, depth, ctx.seed * 31 + (7 if tiny else 3), tag=f'gen-ret-{int(tiny)}')
+        for b in behs:
+            if any(st['a'] == 'ack' and i > 0 and len(st['files']) < len(b[i - 1]['files']) for i, st in enumerate(b)):
+                deletions += 1
+        res = retention_replay(ctx, behs, tiny, f'{int(tiny)}')
+        ctx.traces += len(behs)
+        ctx.evaluations += sum(r['steps'] for r in res)
+        for b in behs:
+            ctx.nontrivial.add(('retention', tiny, json.dumps([(st['a'], st['s'], st['torn']) for st in b])))
+        for r in [r for r in res if not r['ok']][:3]:
+            beh = behs[r['b']]
+            again = retention_replay(ctx, [beh], tiny, f'repro-{int(tiny)}-{r["b"]}')[0]
+            if r.get('infra') and again.get('infra'):
+                raise Infra('retention replay: ' + str(r.get('what')))
+            if again['ok'] or again.get('infra'):
+                ctx.unreproduced.append({'what': 'retention walk', 'first': r.get('what'), 'behaviour': beh})
+                continue
+            path = save_replay(ctx, 'retention', {'retention': beh, 'tiny': tiny, 'mismatch': again})
+            ctx.violations.append({'what': f"primary with an acknowledging replication client, step {again.get('step')} of a generated walk "
+                                           f"({'one-byte' if tiny else 'large'} memory table): {again.get('what')}", 'replay': path})
+    if deletions == 0:
+        raise Infra('vacuity: no generated retention walk deletes a log file')
+    ctx.notes['retention_walks_with_a_deleted_log_file'] = deletions
+    # binding self-test: a walk whose prediction is corrupted must be noticed at that step
+    base = next((b for b in behs if len(b) > 3 and b[2]['up']), None)
+    if base is not None:
+        m = json.loads(json.dumps(base))
+        m[2]['next'] += 1
+        r = retention_replay(ctx, [m], True, 'selftest')[0]
+        if r['ok'] or r.get('step') != 3:
+            raise Infra(f'binding self-test failed: a corrupted prediction (next sequence number at step 3) was not noticed there: {r}')
+
+
 def selftest(ctx, runs):
     """A corrupted observation (one key's value changed / the surviving count changed) must be rejected."""
     for ev, info in runs:
@@ -379,10 +471,13 @@ def selftest(ctx, runs):
 def check_C02(ctx):
     ctx.assumptions += ['process death, not power failure: what was handed to write(2) survives; fsync is visible only through hook order',
                         'stop points are the hook sites (Appendix A of DESIGN.md) - a stop between two sites behaves like a stop at one of them for the state on disk',
-                        'SyncBatch is held to the SyncNone contract between its thresholds']
+                        'SyncBatch is held to the SyncNone contract between its thresholds',
+                        'log retention (the only code that deletes log files) is driven through the public Acknowledge request by a protocol-following '
+                        'client written with the generated stubs: kevo\'s own Replica never sends acknowledgements']
     tlc_mc(ctx, 'MC_Store', 'MC_Store_crash.cfg' if ctx.quick() else 'MC_Store_crash_thorough.cfg', timeout=900 if ctx.quick() else 3000)
     replay_witnesses(ctx, 'C02')
     gated_rotation(ctx, 'C02')
+    retention(ctx, 'C02')
     progs = programs(ctx, 8 if ctx.quick() else 60)
     ctx.samples = [[{'a': s['a'], 'op': s['op']} for s in progs[0]]]
     runs = enumerate_crashes(ctx, 'C02', progs[:(8 if ctx.quick() else 60)], CRASH_CLASSES, cap=6 if ctx.quick() else 10,
